@@ -7,21 +7,44 @@ untouched.
 namespace SJ.Layout
 open SJ SJ.Generated
 
-/-- [bv_decide] the word `SetStringBytes` writes: tag, buffer flag, offset -/
+/-- the word `SetStringBytes` writes: tag, buffer flag, offset (plain arithmetic on `toNat`) -/
+theorem flagOr_toNat (n : UInt64) (h : n < 0x80000000000000) : (wSTRINGBUFBIT ||| n).toNat = 2^55 + n.toNat := by
+  have h' : n.toNat < 2^55 := by rw [UInt64.lt_iff_toNat_lt] at h; exact h
+  have e : wSTRINGBUFBIT.toNat = 1 <<< 55 := by decide
+  rw [UInt64.toNat_or, e, ← Nat.shiftLeft_add_eq_or_of_lt h' 1]
+  simp [Nat.shiftLeft_eq]
+theorem strWord_eq (n : UInt64) : mkWord tagString wSTRINGBUFBIT ||| n = mkWord tagString (wSTRINGBUFBIT ||| n) := by
+  unfold mkWord; exact UInt64.or_assoc _ _ _
+theorem flagOr_lt (n : UInt64) (h : n < 0x80000000000000) : wSTRINGBUFBIT ||| n < 0x100000000000000 := by
+  have h' : n.toNat < 2^55 := by rw [UInt64.lt_iff_toNat_lt] at h; exact h
+  rw [UInt64.lt_iff_toNat_lt, flagOr_toNat n h]
+  show 2^55 + n.toNat < 2^56
+  omega
 theorem strWord_tag (n : UInt64) (h : n < 0x80000000000000) :
     tagOf (mkWord tagString wSTRINGBUFBIT ||| n) = tagString := by
-  unfold tagOf mkWord tagString wSTRINGBUFBIT
-  bv_decide
+  rw [strWord_eq, tagOf_mkWord _ _ (flagOr_lt n h)]
 theorem strWord_flag (n : UInt64) (h : n < 0x80000000000000) :
     (payloadOf (mkWord tagString wSTRINGBUFBIT ||| n) &&& wSTRINGBUFBIT == 0) = false := by
-  unfold payloadOf mkWord tagString wSTRINGBUFBIT wJSONVALUEMASK
-  have : ((34 : UInt8).toUInt64 <<< 56 ||| 36028797018963968 ||| n) &&& 72057594037927935 &&& 36028797018963968 ≠ 0 := by
-    bv_decide
-  simpa using this
+  have h' : n.toNat < 2^55 := by rw [UInt64.lt_iff_toNat_lt] at h; exact h
+  rw [strWord_eq, payloadOf_mkWord _ _ (flagOr_lt n h)]
+  have : ((wSTRINGBUFBIT ||| n) &&& wSTRINGBUFBIT).toNat ≠ 0 := by
+    have e : wSTRINGBUFBIT.toNat = 2^55 := by decide
+    rw [UInt64.toNat_and, flagOr_toNat n h, e]
+    intro hz
+    have ht : ((2^55 + n.toNat) &&& 2^55).testBit 55 = true := by
+      rw [Nat.testBit_and, Nat.testBit_two_pow_add_eq, Nat.testBit_lt_two_pow h', Nat.testBit_two_pow_self]; rfl
+    rw [hz] at ht
+    simp at ht
+  have hne : (wSTRINGBUFBIT ||| n) &&& wSTRINGBUFBIT ≠ 0 := fun hz => this (by rw [hz]; rfl)
+  simpa using hne
 theorem strWord_off (n : UInt64) (h : n < 0x80000000000000) :
     payloadOf (mkWord tagString wSTRINGBUFBIT ||| n) &&& wSTRINGBUFMASK = n := by
-  unfold payloadOf mkWord tagString wSTRINGBUFBIT wJSONVALUEMASK wSTRINGBUFMASK
-  bv_decide
+  have h' : n.toNat < 2^55 := by rw [UInt64.lt_iff_toNat_lt] at h; exact h
+  rw [strWord_eq, payloadOf_mkWord _ _ (flagOr_lt n h)]
+  apply UInt64.toNat_inj.mp
+  have e : wSTRINGBUFMASK.toNat = 2^55 - 1 := by decide
+  rw [UInt64.toNat_and, flagOr_toNat n h, e, Nat.and_two_pow_sub_one_eq_mod]
+  omega
 
 /-- appending to the string buffer changes no existing string reference -/
 theorem stringByteAt_append (pj : PJ) (extra : Bytes) (o l : UInt64) (s : Bytes)
